@@ -121,7 +121,10 @@ AtEnd == IF l = Len(Trace) THEN PrintT(ToJson([stats |-> cnt'])) ELSE TRUE
 Ext ==
     /\ l <= Len(Trace) /\ Trace[l].k = "ext"
     /\ LET ln == Trace[l]
-       IN /\ Report(ExtBad(ln), [class |-> Class(ln.case), res |-> ln.res])
+           bad == ExtBad(ln)
+       IN /\ Report(bad, [class |-> Class(ln.case), res |-> ln.res,
+                          flip |-> IF "X06.Oriented" \in bad THEN FlipClass(ln.case, LTris(ln.case, ln.tris), ln.pos)
+                                   ELSE "none"])
           /\ cnt' = ExtCount(ln)
     /\ AtEnd
     /\ l' = l + 1
@@ -129,7 +132,7 @@ Ext ==
 Rep ==
     /\ l <= Len(Trace) /\ Trace[l].k = "rep"
     /\ LET ln == Trace[l]
-       IN /\ Report(RepBad(ln), [class |-> "rep", res |-> ln.res])
+       IN /\ Report(RepBad(ln), [class |-> "rep", res |-> ln.res, flip |-> "none"])
           /\ cnt' = RepCountUp(ln)
     /\ AtEnd
     /\ l' = l + 1
